@@ -59,9 +59,9 @@ def connective(ast, alpha):
         if isinstance(extra, tuple) and extra[0] == 'sign':
             s, kk = extra[1], extra[2]
             return int(s * sum(vals) >= kk)
-        return int(n >= extra)
+        return int(sum(vals) >= extra)      # arguments are 0/1 for connective formulas; integer leaves count with their value
     if kind == 'AtMost':
-        return int(n <= extra)
+        return int(sum(vals) <= extra)
     if kind in ('Xor', 'ExactlyOne'):
         return int(n == 1)
     if kind == 'XNor':
